@@ -37,7 +37,7 @@ ALL_NAMES = LOADER_NAMES + CLI_NAMES + MAIN_NAMES
 
 EXTERNALS = {"open_read": 1, "stdin_read": 0, "bytes_decode": 2, "json_loads": 1, "import_yaml": 0, "yaml_safe_load": 1,
              "_parse_require_attrs": 1, "validate_policy": 1, "analyze_policy": 2, "analyze_policyset": 2,
-             "build_parser": 0, "parse_args": 2, "call_func": 2}
+             "build_parser": 0, "parse_args": 1, "call_func": 1}
 EXT_ORDER = ("_detect_format", "open_read", "stdin_read", "bytes_decode", "json_loads", "import_yaml", "yaml_safe_load", "_parse_require_attrs",
          "validate_policy", "analyze_policy", "analyze_policyset", "build_parser", "parse_args", "call_func")
 LEAN_NAMES = {"main": "cli_main"}
